@@ -148,4 +148,59 @@ theorem Inv.waiting_has_source {top : Option Nat} {s : State} (h : Inv [] [] top
   have hx : t ∈ Tbl.getD s.notify (o, n) := (h.tab.mir.mem_iff o n t).2 hmem
   exact ⟨o, n, hx, (h.tab.aN o n t hx).1⟩
 
+/-! ### quiescence (C13) -/
+
+/-- a non-empty WF table has a key with a member -/
+theorem Tbl.WF.exists_mem_of_ne_nil {T : Tbl} (h : Tbl.WF T) (hne : T ≠ []) :
+    ∃ k x, x ∈ Tbl.getD T k := by
+  cases T with
+  | nil => exact absurd rfl hne
+  | cons e T =>
+    have hm : e ∈ e :: T := List.mem_cons_self
+    obtain ⟨x, hx⟩ := List.exists_mem_of_ne_nil _ (h.nonempty e hm)
+    refine ⟨e.1, x, ?_⟩
+    rw [Tbl.find_eq_getD_of_some (Tbl.find_of_mem h.nodup (k := e.1) (l := e.2) hm)]
+    exact hx
+
+/-- no live thread record ⇒ the timer and both listener tables are empty -/
+theorem Inv.quiescent_empty {top : Option Nat} {s : State} (h : Inv [] [] top s)
+    (hq : ∀ t th, s.th? t = some th → th.dead = true) :
+    s.timer.elems = [] ∧ s.notify = [] ∧ s.waitFor = [] := by
+  have hN : s.notify = [] := by
+    apply Classical.byContradiction
+    intro hne
+    obtain ⟨k, x, hx⟩ := h.n.wfN.exists_mem_of_ne_nil hne
+    obtain ⟨_, _, th, hf, _, hd, _⟩ := h.registered_waiting (o := k.1) (n := k.2) hx
+    rw [hq x th hf] at hd; cases hd
+  refine ⟨?_, hN, ?_⟩
+  · apply List.eq_nil_iff_forall_not_mem.2
+    intro e he
+    obtain ⟨th, hf, _, _, hd⟩ := h.timer_elem_live he
+    rw [hq e.1 th hf] at hd; cases hd
+  · apply Classical.byContradiction
+    intro hne
+    obtain ⟨k, o, ho⟩ := h.n.wfW.exists_mem_of_ne_nil hne
+    have hx : k.1 ∈ Tbl.getD s.notify (o, k.2) := (h.tab.mir.mem_iff o k.2 k.1).2 ho
+    rw [hN] at hx
+    simp [Tbl.getD, Tbl.find] at hx
+
+/-- a thread that is `timing` or `waiting` is a live thread with a live VM, and it holds a timer element
+    resp. a wait-for entry -/
+theorem Inv.suspended_live {top : Option Nat} {s : State} (h : Inv [] [] top s) {t : Nat} {th : Th}
+    (hf : s.th? t = some th) (hs : th.ts = .timing ∨ th.ts = .waiting) :
+    th.hasVM = true ∧ th.dead = false ∧ th.vm ≠ .destroyed ∧
+      (th.ts = .timing → t ∈ s.timer.elems.map (·.1)) ∧
+      (th.ts = .waiting → Tbl.hasOwner s.waitFor t = true) := by
+  have r := h.th t th hf
+  have hv : th.hasVM = true := by
+    cases hv : th.hasVM with
+    | true => rfl
+    | false => have := r.f1 hv; rcases hs with hs | hs <;> (rw [hs] at this; cases this)
+  have hd : th.dead = false := by
+    cases hd : th.dead with
+    | false => rfl
+    | true => have := (r.f2 hd).1; rw [hv] at this; cases this
+  refine ⟨hv, hd, (fun e => by have := r.f5 e; rw [hv] at this; cases this), fun e => h.tim.t3 t th hf e,
+    fun e => (h.waiting_iff t).1 ⟨th, hf, e⟩⟩
+
 end Morfuse.Sched
